@@ -192,4 +192,20 @@ example :
       w.done 2 = true ∧ GoCtx.lockWaitError w 2 = some (.user 7) := by
   refine ⟨_, rfl, ?_, ?_⟩ <;> decide
 
+/-- the mount layer's side of the refusals: the page, journal and WAL write handlers and the
+    create handlers convert the read-only refusal to a permission errno (`ToError`; page writes
+    since fix 04a19f9), database removal is gated on the primary role (regenerated from fuse/*.go;
+    driven without a kernel by the suites with the `mount` argument) -/
+theorem C07_source_skeletons_mount :
+    Gen.Skel.fn_ToError = Expected.Skel.fn_ToError ∧
+    Gen.Skel.DatabaseHandle_Write = Expected.Skel.DatabaseHandle_Write ∧
+    Gen.Skel.JournalHandle_Write = Expected.Skel.JournalHandle_Write ∧
+    Gen.Skel.WALHandle_Write = Expected.Skel.WALHandle_Write ∧
+    Gen.Skel.DatabaseNode_Setattr = Expected.Skel.DatabaseNode_Setattr ∧
+    Gen.Skel.JournalNode_Setattr = Expected.Skel.JournalNode_Setattr ∧
+    Gen.Skel.RootNode_Lookup = Expected.Skel.RootNode_Lookup ∧
+    Gen.Skel.RootNode_Create = Expected.Skel.RootNode_Create ∧
+    Gen.Skel.RootNode_Remove = Expected.Skel.RootNode_Remove :=
+  ⟨rfl, rfl, rfl, rfl, rfl, rfl, rfl, rfl, rfl⟩
+
 end LiteFSVerif.C07
